@@ -540,3 +540,113 @@ func (c *Ctx) ruleTypeIdent() {
 		}
 	}
 }
+
+// ruleQueries: which annotations contribute interface / type queries (ToInterfaceQuery, ToTypeQuery), how the
+// interface loader enumerates methods, and that the import map is per file.
+func (c *Ctx) ruleQueries() {
+	P := c.P
+	ann := "annotations.ImplementsAnnotation"
+	notFound := func(l Lit) bool {
+		return l.Kind == "cond" && l.Val != nil && strings.HasSuffix(P.Desc(l.Val), "."+ann+".PackageNotFound)")
+	}
+	if fn := P.LookupFunc("annotations", "PackageAnnotations.ToTypeQuery"); fn != nil {
+		okUpd, okApp := false, false
+		allInstrs(fn, func(b *ssa.BasicBlock, ins ssa.Instruction) {
+			g := nonLoopGuards(P.BlockGuards(b))
+			switch x := ins.(type) {
+			case *ssa.MapUpdate:
+				// a type is marked as seen only when its annotation contributes a query
+				okUpd = hasLit(g, func(l Lit) bool { return !l.Pos && notFound(l) }) && strings.HasSuffix(P.Desc(x.Key), "."+ann+".OnType)")
+			case *ssa.Call:
+				if bi, ok := x.Call.Value.(*ssa.Builtin); ok && bi.Name() == "append" && typeStr(x.Type()) == "[]annotations.TypeQuery" {
+					nf := hasLit(g, func(l Lit) bool { return !l.Pos && notFound(l) })
+					dd := hasLit(g, func(l Lit) bool { return lookupOK(l) != nil && !l.Pos })
+					okApp = nf && dd && len(g) == 2 && c.complitFieldFrom(fn, "annotations.TypeQuery", "TypeName", "."+ann+".OnType)")
+				}
+			}
+		})
+		c.check(okUpd && okApp, "QUERY-SHAPE", "annotations.PackageAnnotations.ToTypeQuery", P.Pos(fn.Pos()), "one type query per annotated type that has a resolvable annotation (dedup among those only)",
+			"a type whose first @implements is unresolved (IMPL01) is marked as seen before the skip: its later, resolvable annotations are never checked (lost IMPL03)")
+	} else {
+		c.fail("QUERY-SHAPE", "annotations.PackageAnnotations.ToTypeQuery", "", "method not found")
+	}
+	if fn := P.LookupFunc("annotations", "PackageAnnotations.ToInterfaceQuery"); fn != nil {
+		okApp := false
+		allInstrs(fn, func(b *ssa.BasicBlock, ins ssa.Instruction) {
+			if x, ok := ins.(*ssa.Call); ok {
+				if bi, ok := x.Call.Value.(*ssa.Builtin); ok && bi.Name() == "append" && typeStr(x.Type()) == "[]annotations.InterfaceQuery" {
+					g := nonLoopGuards(P.BlockGuards(b))
+					okApp = len(g) == 1 && hasLit(g, func(l Lit) bool { return !l.Pos && notFound(l) }) &&
+						c.complitFieldFrom(fn, "annotations.InterfaceQuery", "InterfaceName", "."+ann+".InterfaceName)") &&
+						c.complitFieldFrom(fn, "annotations.InterfaceQuery", "PackageName", "."+ann+".PackageFullPath)")
+				}
+			}
+		})
+		c.check(okApp, "QUERY-SHAPE", "annotations.PackageAnnotations.ToInterfaceQuery", P.Pos(fn.Pos()), "one interface query (name, resolved full path) per resolvable annotation", "interface queries are not exactly (InterfaceName, PackageFullPath) of every annotation whose package was found")
+	} else {
+		c.fail("QUERY-SHAPE", "annotations.PackageAnnotations.ToInterfaceQuery", "", "method not found")
+	}
+	// interface methods: the full method set (embedded interfaces included)
+	if fn := P.LookupFunc("implements", "extractMethodsFromInterface"); fn != nil {
+		var calls []string
+		allInstrs(fn, func(b *ssa.BasicBlock, ins ssa.Instruction) {
+			if x, ok := ins.(*ssa.Call); ok {
+				n := P.calleeName(x.Common())
+				if strings.HasPrefix(n, "(*go/types.Interface).") {
+					calls = append(calls, strings.TrimPrefix(n, "(*go/types.Interface)."))
+				}
+			}
+		})
+		sort.Strings(calls)
+		okM := strings.Join(calls, ",") == "Method,NumMethods"
+		c.check(okM, "IFACE-METHODS", "implements.extractMethodsFromInterface", P.Pos(fn.Pos()), "iterates NumMethods()/Method(i): all methods including those of embedded interfaces", "interface methods are enumerated with "+strings.Join(calls, ",")+": methods inherited from embedded interfaces are not compared")
+	} else {
+		c.fail("IFACE-METHODS", "implements.extractMethodsFromInterface", "", "function not found")
+	}
+	// the import map handed to the @implements parser is built per file from that file's own imports
+	for _, ps := range c.parseSites() {
+		if ps.Keyword != "@implements" || len(ps.Call.Call.Args) < 4 {
+			continue
+		}
+		imp := ps.Call.Call.Args[3]
+		fileFn := ps.Call.Parent()
+		okScope := P.RootsAll(imp, func(r ssa.Value) bool {
+			a, ok := r.(*ssa.Alloc)
+			return ok && typeStr(deref(a.Type())) == "util.ImportMap" && a.Parent() == fileFn
+		})
+		// filled from range file.Imports of the same file
+		okFill := false
+		allInstrs(fileFn, func(b *ssa.BasicBlock, ins ssa.Instruction) {
+			if call, ok := ins.(*ssa.Call); ok && call.Call.StaticCallee() != nil && FuncName(call.Call.StaticCallee()) == "(*util.ImportMap).Add" {
+				d := P.Desc(call.Call.Args[1])
+				if P.Desc(call.Call.Args[0]) == P.Desc(imp) && strings.HasPrefix(d, "elem(field(iterelem0(call((*config.Config).FilterFiles;") && strings.HasSuffix(d, ".go/ast.File.Imports))") {
+					okFill = len(nonLoopGuards(P.BlockGuards(b))) == 0
+				}
+			}
+		})
+		c.check(okScope && okFill, "IMPORTS-PER-FILE", FuncName(fileFn), P.Pos(ps.Call.Pos()), "qualifiers are resolved against the imports of the annotation's own file",
+			"the import map used to resolve @implements qualifiers is not built per file from that file's imports: a qualifier bound only in another file resolves (or two files' aliases collide)")
+	}
+}
+
+// complitFieldFrom: in fn, every composite literal of type typ stores into field a value whose descriptor ends
+// with suffix.
+func (c *Ctx) complitFieldFrom(fn *ssa.Function, typ, field, suffix string) bool {
+	P := c.P
+	n, ok := 0, true
+	allInstrs(fn, func(b *ssa.BasicBlock, ins ssa.Instruction) {
+		st, isS := ins.(*ssa.Store)
+		if !isS {
+			return
+		}
+		fa, isF := st.Addr.(*ssa.FieldAddr)
+		if !isF || typeStr(deref(fa.X.Type())) != typ || fieldName(deref(fa.X.Type()), fa.Field) != field {
+			return
+		}
+		n++
+		if !strings.HasSuffix(P.Desc(st.Val), suffix) {
+			ok = false
+		}
+	})
+	return ok && n > 0
+}
